@@ -52,6 +52,7 @@ pub struct KGrpA;
 pub struct KGrpR;
 pub struct KGrpB;
 pub struct KGrpC;
+pub struct KGrpD;
 
 pub type Arena = std::sync::Arc<std::sync::Mutex<Vec<Box<dyn std::any::Any>>>>;
 
@@ -137,6 +138,10 @@ pub trait Everything:
     + Gen<u64>
     + Children<Child = Solo, RefChild = Solo, MutChild = Solo, GChild = Solo, GRefChild = Solo, GMutChild = Solo>
     + ChildrenMore<MChild = Self>
+    + IOPort
+    + Inspect
+    + KVStore
+    + KeyDumper
     + HasMask
     + Clone
     + Unpin
@@ -156,6 +161,10 @@ impl<T> Everything for T where
         + Gen<u64>
         + Children<Child = Solo, RefChild = Solo, MutChild = Solo, GChild = Solo, GRefChild = Solo, GMutChild = Solo>
         + ChildrenMore<MChild = Self>
+        + IOPort
+        + Inspect
+        + KVStore
+        + KeyDumper
         + HasMask
         + Clone
         + Unpin
